@@ -2,37 +2,42 @@
 
 Path rules (E-P) on Actor._run_loop / Actor.start / BackgroundService.{cancel,stop,wait} / run(),
 plus who-may-call and override discipline over every BackgroundService subclass.
+
+Every anchored function is analysed on its *normalised* form (sa.engine.normalize: private helpers
+spliced in, assignment diamonds folded; locals are resolved on demand by Flow.expand) and every guard is decided
+semantically: a rule fixes a valuation of the relevant atoms (`limit is None`, `n < limit`,
+`self.is_running`, `self._tasks` non-empty, ...) and asks path questions on the CFG restricted to
+the branch sides compatible with that valuation (sa.props._c10_util.Flow).  Roles (restart counter,
+finished-task set, collected-error list, pending set) are bound by dataflow, not by name.
 """
 from __future__ import annotations
 
 import ast
 
-from ..engine.cfg import CFG, own_parts
+from ..engine.cfg import own_parts
+from ..engine.normalize import positional
 from ..engine.report import AnalysisError, Run
-from ..engine.resolver import FuncInfo, Program, body_walk, dotted, walk_no_nested
+from ..engine.resolver import Program, body_walk, dotted, walk_no_nested
 from ..engine.util import (
-    canon, canon_total, find_calls, has_call, is_super_call, method_call, nodes_where,
-    node_has_call, node_writes, nodes_with_call, normal_edge, some, u, writes_of,
+    canon, find_calls, has_call, is_super_call, method_call, node_writes,
+    nodes_with_call, normal_edge, some, u, writes_of,
+)
+from ._c10_util import (
+    Flow, callee_tail, is_none, join, less_than, loop_leaks, nonempty, own_calls, positive, registered,
+    strip_wrappers, truthy,
 )
 
 ACTOR = "actor._actor:Actor"
 BGS = "actor._background_service:BackgroundService"
-
-
-def _cfg(fn: FuncInfo) -> CFG:
-    return CFG(fn.node, fn.file)
-
-
-def _fmt(cfg: CFG, path: list[tuple[int, str]] | None) -> list[str]:
-    return cfg.describe_path(path)
+LIMIT = "self._restart_limit"
+TASKS = "self._tasks"
 
 
 # ---------------------------------------------------------------------------------------------
 def check_run_loop(run: Run, prog: Program) -> None:
-    fn = prog.func(f"{ACTOR}._run_loop")
-    run.analysed(fn.qual)
-    cfg = _cfg(fn)
-    q = fn.qual
+    fl = Flow(prog, prog.func(f"{ACTOR}._run_loop"))
+    fn, cfg, q = fl.fn, fl.cfg, fl.qual
+    run.analysed(q)
     is_run = lambda c: method_call(c, "self", "_run")  # noqa: E731
     run_nodes = some(nodes_with_call(cfg, is_run), "call of self._run() in Actor._run_loop")
     for r in run_nodes:
@@ -45,16 +50,18 @@ def check_run_loop(run: Run, prog: Program) -> None:
                   "self._run() must be awaited in place (never spawned as a task), so two runs "
                   "cannot overlap", node=n.ast, file=fn.file)
 
+    dfn = prog.func(f"{ACTOR}._delay_if_restart")
+    delay_params = dfn.params[1:]
+    if not delay_params:
+        raise AnalysisError(f"{dfn.qual}: the restart-iteration parameter is missing")
+
     for r in run_nodes:
         rn = cfg.nodes[r]
         # ---- C10.RET: after normal completion no path leads back to _run()
         normal_succ = [m for m, lab in cfg.succ[r] if not lab.startswith("exc:")]
-        bad = cfg.path(r, run_nodes, edge_ok=None, include_src=False,
-                       avoid=()) if False else None
         reach = cfg.reachable(normal_succ)
         again = [x for x in run_nodes if x in reach]
         if again:
-            # witness: shortest path from a normal successor
             wit = None
             for s0 in normal_succ:
                 wit = cfg.path(s0, again)
@@ -63,7 +70,7 @@ def check_run_loop(run: Run, prog: Program) -> None:
             run.violation("C10.RET", q, rn.ast,
                           "after `await self._run()` returns normally a path leads back to another "
                           "invocation of _run() (restart after normal return)",
-                          node=rn.ast, file=fn.file, path=_fmt(cfg, wit))
+                          node=rn.ast, file=fn.file, path=fl.fmt(wit))
         else:
             run.ok("C10.RET", f"{q}: normal return of _run() never reaches _run() again",
                    "normal successors reach only function exit")
@@ -82,12 +89,12 @@ def check_run_loop(run: Run, prog: Program) -> None:
             wit = cfg.path(targets[0], back) if back else None
             run.check(not back, rule, q, rn.ast,
                       f"{word} of _run() can lead to another invocation of _run()",
-                      node=rn.ast, file=fn.file, path=_fmt(cfg, wit),
+                      node=rn.ast, file=fn.file, path=fl.fmt(wit),
                       instance=f"{q}: {word} never re-invokes _run()")
             wit = cfg.path(targets[0], [cfg.exit]) if cfg.exit in reach else None
             run.check(cfg.exit not in reach, rule, q, f"{word} handler reaches normal exit",
                       f"{word} of _run() is swallowed: a path reaches the normal function exit "
-                      "instead of re-raising", node=rn.ast, file=fn.file, path=_fmt(cfg, wit),
+                      "instead of re-raising", node=rn.ast, file=fn.file, path=fl.fmt(wit),
                       instance=f"{q}: {word} always propagates (never swallowed)")
             # the propagating edge must carry the same kind
             ends = [(a, lab) for a, lab in cfg.pred[cfg.raise_exit] if a in reach or a in targets]
@@ -100,85 +107,81 @@ def check_run_loop(run: Run, prog: Program) -> None:
         e_targets = [m for m, lab in cfg.succ[r] if lab == "exc:E"]
         if not e_targets:
             raise AnalysisError(f"{q}: no exc:E edge out of the _run() await")
-        handler_side = cfg.reachable(e_targets, avoid=run_nodes)
-        # the guard: a test mentioning the restart limit
-        guards = [t for t in handler_side
-                  if cfg.nodes[t].kind in ("test", "while")
-                  and "_restart_limit" in cfg.nodes[t].label]
-        if len(guards) != 1:
+        # the handler's own code: what runs after the failure and before the next _run()
+        region = cfg.reachable(e_targets, avoid=run_nodes, edge_ok=normal_edge)
+        # the tests that read the restart limit (through any local alias)
+        limit_tests = [t for t in fl.tests(region) if LIMIT in fl.subtexts(t, fl.test_expr(t))]
+        if not limit_tests:
             run.violation("C10.RESTART", q, "restart guard",
-                          f"expected exactly one test of self._restart_limit on the Exception "
-                          f"path, found {len(guards)}: restart is not (only) governed by the limit",
-                          node=rn.ast, file=fn.file)
+                          "no test of self._restart_limit on the Exception path: restart is not "
+                          "governed by the limit", node=rn.ast, file=fn.file)
             continue
-        gnode = cfg.nodes[guards[0]]
-        assert gnode.ast is not None
-        # counter: the operand compared with the limit
-        cands = set()
-        for x in ast.walk(gnode.ast):
-            if isinstance(x, ast.Compare) and len(x.ops) == 1 and isinstance(
-                    x.ops[0], (ast.Lt, ast.LtE, ast.Gt, ast.GtE)):
-                sides = {u(x.left), u(x.comparators[0])}
-                if "self._restart_limit" in sides:
-                    cands |= sides - {"self._restart_limit"}
+        # counter: the operand order-compared with the limit
+        cands: set[str] = set()
+        for t in limit_tests:
+            for x in ast.walk(fl.expand(t, fl.test_expr(t))):  # type: ignore[arg-type]
+                if isinstance(x, ast.Compare) and len(x.ops) == 1 and isinstance(
+                        x.ops[0], (ast.Lt, ast.LtE, ast.Gt, ast.GtE)):
+                    sides = {u(x.left), u(x.comparators[0])}
+                    if LIMIT in sides:
+                        cands |= sides - {LIMIT}
+        gnode = cfg.nodes[limit_tests[0]]
+        gast = fl.test_expr(gnode.id)
+        if not cands:
+            run.violation("C10.RESTART", q, "restart guard",
+                          "the restart decision never compares a restart counter with "
+                          "self._restart_limit", node=gast, file=fn.file)
+            continue
         if len(cands) != 1:
-            raise AnalysisError(f"{q}: cannot identify the restart counter in `{gnode.label}`")
+            raise AnalysisError(f"{q}: cannot identify the restart counter (candidates {sorted(cands)})")
         ctr = cands.pop()
-        want = ("or", frozenset({("is", frozenset({"self._restart_limit", "None"})),
-                                 ("<", ctr, "self._restart_limit")}))
-        got = canon_total(gnode.ast)
-        allow_label, deny_label = "true", "false"
-        if got != want:
-            neg = canon_total(gnode.ast, neg=True)
-            if neg == want:
-                allow_label, deny_label = "false", "true"
+        fl.pin(ctr)
+        run.ok("C10.RESTART", f"{q}: restart decided by tests of {LIMIT} against counter `{ctr}` "
+               f"({len(limit_tests)} test(s))")
+        # The decision must equal `limit is None or ctr < limit`: it is evaluated on the three cases
+        # that partition the domain.  Tests the valuation does not decide are followed both ways.
+        cases = (
+            ("limit is None", is_none(LIMIT, True), True),
+            (f"{ctr} < limit", join(is_none(LIMIT, False), less_than(ctr, LIMIT, True)), True),
+            (f"limit reached ({ctr} >= limit)",
+             join(is_none(LIMIT, False), less_than(ctr, LIMIT, False)), False),
+        )
+        for text, val, allowed in cases:
+            if allowed:
+                # really restarts: on normal edges neither `raise` nor the exit comes before _run()
+                ok_e = fl.consistent(val, normal=True)
+                a_reach = cfg.reachable(e_targets, avoid=run_nodes, edge_ok=ok_e)
+                stray = [x for x in a_reach if x == cfg.exit or isinstance(cfg.nodes[x].ast, ast.Raise)]
+                wit = None
+                for t0 in e_targets:
+                    wit = cfg.path(t0, stray, avoid=run_nodes, edge_ok=ok_e) if stray else None
+                    if wit:
+                        break
+                reaches_run = any(ok_e(x, m, lab) and m in run_nodes
+                                  for x in a_reach for m, lab in cfg.succ[x])
+                run.check(not stray and reaches_run, "C10.RESTART", q, f"restart when {text}",
+                          f"with restarts left ({text}) a failing _run() is not (always) re-invoked: "
+                          "the handler can reach `raise`/exit or never reaches _run()",
+                          node=gast, file=fn.file, path=fl.fmt(wit),
+                          instance=f"{q}: {text} => _run() re-invoked")
             else:
-                run.violation("C10.RESTART", q, gnode.ast,
-                              f"restart guard is not equivalent to `limit is None or {ctr} < limit` "
-                              f"(canonical form {got})", node=gnode.ast, file=fn.file)
-                continue
-        run.ok("C10.RESTART", f"{q}: guard `{gnode.label}` == limit is None or {ctr} < limit")
-        allow = [m for m, lab in cfg.succ[gnode.id] if lab == allow_label]
-        deny = [m for m, lab in cfg.succ[gnode.id] if lab == deny_label]
-        # (a) a restart happens only through the allow edge
-        wit = None
-        for t0 in e_targets:
-            wit = cfg.path(t0, run_nodes,
-                           edge_ok=lambda a, b, lab: not (a == gnode.id and lab == allow_label))
-            if wit:
-                break
-        run.check(wit is None, "C10.RESTART", q, gnode.ast,
-                  "a path from the Exception handler re-invokes _run() without passing the "
-                  "restart-limit guard on its allowing side", node=gnode.ast, file=fn.file,
-                  path=_fmt(cfg, wit), instance=f"{q}: restart only via allowing side of the guard")
-        # (b) allowed => really restarts: no raise statement / exit before _run()
-        allow_reach = cfg.reachable(allow, avoid=run_nodes, edge_ok=normal_edge)
-        stray = [x for x in allow_reach if x == cfg.exit
-                 or isinstance(cfg.nodes[x].ast, ast.Raise)]
-        wit = cfg.path(allow[0], stray, avoid=run_nodes, edge_ok=normal_edge) \
-            if stray and allow else None
-        reaches_run = bool(allow) and any(
-            any(m in run_nodes for m, _ in cfg.succ[x]) for x in allow_reach)
-        run.check(not stray and reaches_run, "C10.RESTART", q, gnode.ast,
-                  "with restarts left, a failing _run() is not (always) re-invoked: the allowing "
-                  "side of the guard can reach `raise`/exit or never reaches _run()",
-                  node=gnode.ast, file=fn.file, path=_fmt(cfg, wit),
-                  instance=f"{q}: allowed restart always re-invokes _run()")
-        # (c) denied => raises
-        deny_reach = cfg.reachable(deny)
-        bad_targets = [x for x in deny_reach if x == cfg.exit or x in run_nodes]
-        wit = cfg.path(deny[0], bad_targets) if bad_targets and deny else None
-        run.check(bool(deny) and not bad_targets, "C10.RESTART", q, gnode.ast,
-                  "with the restart limit reached the exception must propagate, but a path "
-                  "reaches exit or _run()", node=gnode.ast, file=fn.file, path=_fmt(cfg, wit),
-                  instance=f"{q}: limit reached => exception propagates")
-        # (d) counter incremented exactly once (by 1) on every restart path
-        incs = []
-        for x in handler_side | set(allow_reach):
-            a = cfg.nodes[x].ast
-            if isinstance(a, (ast.AugAssign, ast.Assign, ast.AnnAssign)) and any(
-                    u(w) == ctr for w in node_writes(cfg, x)):
-                incs.append(x)
+                ok_e = fl.consistent(val)
+                wit = None
+                for t0 in e_targets:
+                    wit = cfg.path(t0, [cfg.exit] + run_nodes, edge_ok=ok_e)
+                    if wit:
+                        break
+                propagates = any(cfg.raise_exit in cfg.reachable([t0], edge_ok=ok_e) for t0 in e_targets)
+                run.check(wit is None and propagates, "C10.RESTART", q, f"no restart when {text}",
+                          "with the restart limit reached the exception must propagate, but a path "
+                          "reaches exit or _run() (restart guard is not equivalent to "
+                          f"`limit is None or {ctr} < limit`)", node=gast, file=fn.file,
+                          path=fl.fmt(wit), instance=f"{q}: {text} => exception propagates")
+        # (d) counter incremented exactly once (by 1) on every restart path, after the decision
+        handler_side = cfg.reachable(e_targets, avoid=run_nodes)
+        incs = [x for x in sorted(handler_side | region)
+                if isinstance(cfg.nodes[x].ast, (ast.AugAssign, ast.Assign, ast.AnnAssign))
+                and any(u(w) == ctr for w in node_writes(cfg, x))]
         by_one = all(_is_plus_one(cfg.nodes[x].ast, ctr) for x in incs)
         wit = None
         for t0 in e_targets:
@@ -188,93 +191,186 @@ def check_run_loop(run: Run, prog: Program) -> None:
         run.check(bool(incs) and wit is None and by_one, "C10.RESTART", q,
                   f"increment of {ctr}",
                   f"a restart path does not increment `{ctr}` by exactly 1 before re-invoking "
-                  "_run() (restart limit would not be honoured)", node=gnode.ast, file=fn.file,
-                  path=_fmt(cfg, wit), instance=f"{q}: every restart path increments {ctr} by 1")
+                  "_run() (restart limit would not be honoured)", node=gast, file=fn.file,
+                  path=fl.fmt(wit), instance=f"{q}: every restart path increments {ctr} by 1")
         twice = None
         for x in incs:
             twice = cfg.path(x, incs, avoid=run_nodes, include_src=False, edge_ok=normal_edge)
             if twice:
                 break
         run.check(twice is None, "C10.RESTART", q, f"second increment of {ctr}",
-                  f"`{ctr}` can be incremented twice for one failure", node=gnode.ast,
-                  file=fn.file, path=_fmt(cfg, twice),
+                  f"`{ctr}` can be incremented twice for one failure", node=gast,
+                  file=fn.file, path=fl.fmt(twice),
                   instance=f"{q}: {ctr} incremented at most once per failure")
-        # (e) the delay lies between the restart decision and the next _run()
+        stale = None
+        for x in incs:
+            stale = cfg.path(x, limit_tests, avoid=run_nodes, include_src=False, edge_ok=normal_edge)
+            if stale:
+                break
+        run.check(stale is None, "C10.RESTART", q, f"{ctr} compared before its increment",
+                  f"the restart decision reads `{ctr}` after it was incremented for this failure "
+                  "(one restart fewer than the limit)", node=gast, file=fn.file,
+                  path=fl.fmt(stale), instance=f"{q}: limit test reads {ctr} before the increment")
+        # (e) the delay lies between the increment and the next _run(), and gets the counter
         is_delay = lambda c: method_call(c, "self", "_delay_if_restart")  # noqa: E731
-        delay_nodes = nodes_with_call(cfg, is_delay)
-        wit = cfg.path(allow[0], run_nodes, avoid=delay_nodes, edge_ok=normal_edge) \
-            if allow else None
+        delays = fl.calls(is_delay)
+        delay_nodes = [i for i, c in delays if fl.awaited(i, c)]
+        wit = None
+        for x in incs:
+            wit = cfg.path(x, run_nodes, avoid=delay_nodes, edge_ok=normal_edge, include_src=False)
+            if wit:
+                break
         ok_arg = all(
-            [u(a) for a in c.args] == [ctr]
-            for d in delay_nodes for part in own_parts(cfg.nodes[d])
-            for c in find_calls(part, is_delay))
-        run.check(bool(delay_nodes) and wit is None and ok_arg, "C10.RESTART", q,
-                  "restart delay",
+            set(positional(c, delay_params)) == {delay_params[0]}
+            and fl.text(i, positional(c, delay_params)[delay_params[0]]) == ctr
+            for i, c in delays)
+        run.check(bool(delay_nodes) and len(delay_nodes) == len(delays) and wit is None and ok_arg,
+                  "C10.RESTART", q, "restart delay",
                   f"a restart path reaches _run() without awaiting _delay_if_restart({ctr})",
-                  node=gnode.ast, file=fn.file, path=_fmt(cfg, wit),
+                  node=gast, file=fn.file, path=fl.fmt(wit),
                   instance=f"{q}: every restart passes _delay_if_restart({ctr}) before _run()")
-        # initial value of the counter is 0
-        init = [cfg.nodes[x].ast for x in cfg.reachable([cfg.entry], avoid=run_nodes)
-                if isinstance(cfg.nodes[x].ast, (ast.Assign, ast.AnnAssign))
+        # initial value of the counter is 0 on every way into the first _run()
+        first_part = cfg.reachable([cfg.entry], avoid=run_nodes, edge_ok=normal_edge)
+        init = [x for x in sorted(first_part)
+                if isinstance(cfg.nodes[x].ast, (ast.Assign, ast.AnnAssign, ast.AugAssign))
                 and any(u(w) == ctr for w in node_writes(cfg, x))]
         ok_init = bool(init) and all(
-            isinstance(getattr(s, "value", None), ast.Constant) and s.value.value == 0  # type: ignore[union-attr]
-            for s in init if not _is_plus_one(s, ctr))
-        run.check(ok_init, "C10.RESTART", q, f"{ctr} initialisation",
+            isinstance(getattr(cfg.nodes[x].ast, "value", None), ast.Constant)
+            and not isinstance(cfg.nodes[x].ast, ast.AugAssign)
+            and cfg.nodes[x].ast.value.value == 0  # type: ignore[union-attr]
+            and type(cfg.nodes[x].ast.value.value) is int  # type: ignore[union-attr]
+            for x in init)
+        wit = cfg.path(cfg.entry, run_nodes, avoid=init, edge_ok=normal_edge) if init else None
+        run.check(ok_init and wit is None, "C10.RESTART", q, f"{ctr} initialisation",
                   f"`{ctr}` is not (re)set to 0 when the run loop starts — the restart budget and "
                   "the restart delay would carry over from an earlier start()", node=fn.node,
-                  file=fn.file,
+                  file=fn.file, path=fl.fmt(wit),
                   instance=f"{q}: {ctr} starts at 0")
 
     # ---- handler order: the first handler able to catch a cancellation must not be able to loop
     # (covered semantically by C10.CANCEL above through the exc:C edge)
 
-    # ---- _delay_if_restart really delays for iteration > 0
-    dfn = prog.func(f"{ACTOR}._delay_if_restart")
+    # ---- _delay_if_restart really delays for iteration > 0, and only then
+    dfl = Flow(prog, dfn)
     run.analysed(dfn.qual)
-    dcfg = _cfg(dfn)
-    param = dfn.params[1] if len(dfn.params) > 1 else None
-    sleeps = [x for x in nodes_with_call(dcfg, lambda c: dotted(c.func) == "asyncio.sleep")
-              if dcfg.is_await(x)]
+    dcfg = dfl.cfg
+    param = delay_params[0]
+    sleeps = [(i, c) for i, c in dfl.calls(lambda c: dotted(c.func) == "asyncio.sleep")
+              if dfl.awaited(i, c)]
+    sleep_nodes = [i for i, _ in sleeps]
     ok = False
+    wit = None
     detail = "no awaited asyncio.sleep found"
-    if sleeps and param:
-        ok = True
-        for stest in [t for t in dcfg.nodes if t.kind == "test"]:
-            assert stest.ast is not None
-            c = canon_total(stest.ast)
-            if param in stest.label:
-                good = c in (("<", "0", param), ("<=", "1", param), ("!=", frozenset({param, "0"})),
-                             ("truthy", param))
-                t_succ = [m for m, lab in dcfg.succ[stest.id] if lab == "true"]
-                reach_t = dcfg.reachable(t_succ)
-                f_succ = [m for m, lab in dcfg.succ[stest.id] if lab == "false"]
-                reach_f = dcfg.reachable(f_succ)
-                if not (good and any(s in reach_t for s in sleeps)
-                        and not any(s in reach_f for s in sleeps)):
-                    ok = False
-                    detail = f"delay guard `{stest.label}` is not `{param} > 0`"
-        # the sleep argument derives from RESTART_DELAY
-        src_ok = "RESTART_DELAY" in ast.unparse(dfn.node)
-        if not src_ok:
-            ok = False
-            detail = "sleep duration does not derive from RESTART_DELAY"
+    if sleeps:
+        rebound = [x.id for x in dcfg.nodes if any(u(w) == param for w in node_writes(dcfg, x.id))]
+        wit = dcfg.path(dcfg.entry, [dcfg.exit], avoid=sleep_nodes,
+                        edge_ok=dfl.consistent(positive(param, True), normal=True))
+        early = dcfg.path(dcfg.entry, sleep_nodes,
+                          edge_ok=dfl.consistent(positive(param, False), normal=True))
+        ok = wit is None and early is None and not rebound
+        if wit is not None:
+            detail = f"a restart ({param} > 0) can skip the delay"
+        elif early is not None:
+            wit = early
+            detail = f"the first run ({param} == 0) is delayed: the delay guard is not `{param} > 0`"
+        elif rebound:
+            detail = f"`{param}` is re-bound inside {dfn.name}"
+        # the sleep duration derives from RESTART_DELAY
+        for i, c in sleeps:
+            arg = positional(c, ["delay", "result"]).get("delay")
+            src = dfl.expand(i, arg) if arg is not None else None
+            if src is None or not any(isinstance(x, ast.Attribute) and x.attr == "RESTART_DELAY"
+                                      for x in ast.walk(src)):
+                ok = False
+                detail = "sleep duration does not derive from RESTART_DELAY"
     run.check(ok, "C10.RESTART", dfn.qual, "restart delay guard", detail, node=dfn.node,
-              file=dfn.file, instance=f"{dfn.qual}: sleeps RESTART_DELAY iff iteration > 0")
+              file=dfn.file, path=dfl.fmt(wit),
+              instance=f"{dfn.qual}: sleeps RESTART_DELAY iff iteration > 0")
 
 
 def _is_plus_one(stmt: ast.AST | None, name: str) -> bool:
     if isinstance(stmt, ast.AugAssign):
         return (isinstance(stmt.op, ast.Add) and isinstance(stmt.value, ast.Constant)
-                and stmt.value.value == 1 and u(stmt.target) == name)
-    if isinstance(stmt, ast.Assign) and isinstance(stmt.value, ast.BinOp) \
-            and isinstance(stmt.value.op, ast.Add):
-        parts = {u(stmt.value.left), u(stmt.value.right)}
-        return parts == {name, "1"} and u(stmt.targets[0]) == name
+                and stmt.value.value == 1 and type(stmt.value.value) is int and u(stmt.target) == name)
+    target = value = None
+    if isinstance(stmt, ast.Assign) and len(stmt.targets) == 1:
+        target, value = stmt.targets[0], stmt.value
+    elif isinstance(stmt, ast.AnnAssign):
+        target, value = stmt.target, stmt.value
+    if target is not None and isinstance(value, ast.BinOp) and isinstance(value.op, ast.Add):
+        parts = sorted([u(value.left), u(value.right)])
+        return parts == sorted([name, "1"]) and u(target) == name
     return False
 
 
 # ---------------------------------------------------------------------------------------------
+def _not_running_guard(fl: Flow, targets: list[int]) -> list[tuple[int, str]] | None:
+    """A path entry -> target that is possible while `self.is_running` is true (None: guarded)."""
+    ok_e = fl.consistent(truthy("self.is_running", True))
+    return fl.cfg.path(fl.cfg.entry, targets, edge_ok=ok_e)
+
+
+def _is_any_not_done(fl: Flow) -> bool:
+    """is_running == any(not task.done() for task in self._tasks), in any equivalent shape."""
+    cfg = fl.cfg
+    rets = [n for n in cfg.nodes if isinstance(n.ast, ast.Return)]
+    if not rets or any(n.ast.value is None for n in rets):  # type: ignore[union-attr]
+        return False
+    if len(rets) == 1:
+        v = fl.expand(rets[0].id, rets[0].ast.value)  # type: ignore[union-attr,arg-type]
+        neg = False
+        while isinstance(v, ast.UnaryOp) and isinstance(v.op, ast.Not):
+            neg = not neg
+            v = v.operand
+        if isinstance(v, ast.Call) and isinstance(v.func, ast.Name) and v.func.id in ("any", "all") \
+                and len(v.args) == 1 and not v.keywords \
+                and isinstance(v.args[0], (ast.GeneratorExp, ast.ListComp, ast.SetComp)):
+            comp = v.args[0]
+            gen = comp.generators[0]
+            if len(comp.generators) != 1 or gen.ifs or gen.is_async \
+                    or u(strip_wrappers(gen.iter)) != TASKS:
+                return False
+            done = ("truthy", f"{u(gen.target)}.done()")
+            c = canon(comp.elt)
+            if v.func.id == "any":
+                return not neg and c == ("not", done)
+            return neg and c == done
+        return False
+    # explicit loop: return True at the first task that is not done, False when all are done
+    loops = [n for n in cfg.nodes if n.kind == "for" and isinstance(n.ast, ast.For)
+             and u(strip_wrappers(fl.expand(n.id, n.ast.iter))) == TASKS]
+    if len(loops) != 1 or cfg.path(cfg.entry, [cfg.exit], avoid=[loops[0].id]) is not None:
+        return False
+    h = loops[0]
+    done = f"{u(h.ast.target)}.done()"  # type: ignore[union-attr]
+
+    def const_ret(nid: int, value: bool) -> bool:
+        a = cfg.nodes[nid].ast
+        return isinstance(a, ast.Return) and isinstance(a.value, ast.Constant) and a.value.value is value
+
+    body = [m for m, lab in cfg.succ[h.id] if lab == "iter"]
+    after = [m for m, lab in cfg.succ[h.id] if lab == "done"]
+
+    def always_returns(starts: list[int], edge_ok, value: bool, stop: list[int]) -> bool:  # type: ignore[no-untyped-def]
+        reach = cfg.reachable(starts, avoid=stop, edge_ok=edge_ok)
+        rs = [x for x in reach if isinstance(cfg.nodes[x].ast, ast.Return)]
+        if not starts or not rs or not all(const_ret(x, value) for x in rs):
+            return False
+        return all(s in rs or cfg.path(s, [cfg.exit] + stop, avoid=rs, edge_ok=edge_ok) is None
+                   for s in starts)
+
+    # a task that is not done: every path ends in `return True`
+    if not always_returns(body, fl.consistent(truthy(done, False), normal=True), True, [h.id]):
+        return False
+    # a task that is done: back to the loop header without returning
+    e_done = fl.consistent(truthy(done, True), normal=True)
+    if any(cfg.path(b, [x.id for x in rets] + [cfg.exit], avoid=[h.id], edge_ok=e_done) is not None
+           for b in body):
+        return False
+    # all done: `return False`
+    return always_returns(after, normal_edge, False, [])
+
+
 def check_single(run: Run, prog: Program) -> None:
     """who-may-call: _run only awaited from _run_loop; _run_loop only spawned from start()."""
     actor = prog.cls(ACTOR)
@@ -284,25 +380,25 @@ def check_single(run: Run, prog: Program) -> None:
         owner = fn.cls
         if owner is None or owner.qual not in actor_family:
             continue
+        called = set()
         for call in (x for x in ast.walk(fn.node) if isinstance(x, ast.Call)):
+            called.add(id(call.func))
             if method_call(call, "self", "_run"):
                 n_run += 1
                 run.check(fn.qual == f"{ACTOR}._run_loop", "C10.SINGLE", fn.qual, call,
                           "Actor._run() invoked outside Actor._run_loop (a second, unsupervised "
                           "run of the actor's logic)", node=call, file=fn.file)
-            elif isinstance(call.func, ast.Attribute) and call.func.attr == "_run" \
-                    and u(call.func.value) != "self" and not is_super_call(call, "_run"):
-                pass
-            # passing the bound method somewhere (run_forever(self._run), create_task(self._run()))
-            for arg in list(call.args) + [k.value for k in call.keywords]:
-                if u(arg) == "self._run":
-                    n_run += 1
-                    run.violation("C10.SINGLE", fn.qual, call,
-                                  "Actor._run handed to another runner: it may run concurrently "
-                                  "with the supervised run", node=call, file=fn.file)
             if method_call(call, "self", "_run_loop"):
                 run.check(fn.qual == f"{ACTOR}.start", "C10.SINGLE", fn.qual, call,
                           "_run_loop spawned outside Actor.start", node=call, file=fn.file)
+        # the bound method handed to somebody else (run_forever(self._run), a local alias, ...)
+        for ref in ast.walk(fn.node):
+            if isinstance(ref, ast.Attribute) and ref.attr in ("_run", "_run_loop") \
+                    and u(ref.value) == "self" and id(ref) not in called:
+                n_run += 1
+                run.violation("C10.SINGLE", fn.qual, ref,
+                              f"Actor.{ref.attr} handed to another runner: it may run concurrently "
+                              "with the supervised run", node=ref, file=fn.file)
     if n_run < 1:
         raise AnalysisError("C10.SINGLE: no call of self._run() found in the Actor family")
     # Actor subclasses must not override start/_run_loop/_delay_if_restart/wait/cancel silently
@@ -315,234 +411,266 @@ def check_single(run: Run, prog: Program) -> None:
                           f"Actor subclass overrides {name}() — the restart supervision of "
                           "Actor._run_loop is bypassed", node=m.node, file=m.file)
     # start(): guard and registration
-    st = prog.func(f"{ACTOR}.start")
-    run.analysed(st.qual)
-    cfg = _cfg(st)
-    spawn = some(nodes_with_call(cfg, lambda c: method_call(c, "self", "_run_loop")),
-                 "spawn of _run_loop in Actor.start")
-    for s in spawn:
+    fl = Flow(prog, prog.func(f"{ACTOR}.start"))
+    st, cfg = fl.fn, fl.cfg
+    run.analysed(fl.qual)
+    loop_calls = some(fl.calls(lambda c: method_call(c, "self", "_run_loop")),
+                      "spawn of _run_loop in Actor.start")
+    # the coroutine is wrapped into a task by create_task (directly or through a local) ...
+    spawn = [(i, c) for i, c in fl.calls(lambda c: callee_tail(c) == "create_task")
+             if c.args and isinstance(fl.expand(i, c.args[0]), ast.Call)
+             and method_call(fl.expand(i, c.args[0]), "self", "_run_loop")]  # type: ignore[arg-type]
+    run.check(len(spawn) == len(loop_calls), "C10.SINGLE", fl.qual, "create_task(self._run_loop())",
+              "the _run_loop coroutine is not (only) wrapped into a task by create_task",
+              node=st.node, file=st.file)
+    for s, creator in spawn:
         n = cfg.nodes[s]
         assert n.ast is not None
-        txt = u(n.ast)
-        registered = "self._tasks.add(" in txt and "create_task(" in txt
-        run.check(registered, "C10.SINGLE", st.qual, n.ast,
+        # ... and that task is registered
+        ok_reg, wit = registered(fl, s, creator, TASKS)
+        run.check(ok_reg, "C10.SINGLE", fl.qual, n.ast,
                   "the _run_loop task is not registered in self._tasks (stop()/wait() would miss it)",
-                  node=n.ast, file=st.file)
-        # guard-dominance: every path entry -> spawn passes the is_running test on its false side
-        guards = [t.id for t in cfg.nodes if t.kind == "test" and t.ast is not None
-                  and canon(t.ast) in (("truthy", "self.is_running"),
-                                       ("not", ("truthy", "self.is_running")))]
-        wit = cfg.path(cfg.entry, [s], avoid=guards) if guards else cfg.path(cfg.entry, [s])
-        ok = bool(guards) and wit is None
-        if ok:
-            for gid in guards:
-                gn = cfg.nodes[gid]
-                assert gn.ast is not None
-                running_label = "true" if canon(gn.ast)[0] == "truthy" else "false"
-                bad = cfg.path(gid, [s], edge_ok=lambda a, b, lab, g=gid, rl=running_label:
-                               not (a == g and lab != rl), include_src=True)
-                # path from the guard through its "running" side to the spawn must not exist
-                tgt_running = [m for m, lab in cfg.succ[gid] if lab == running_label]
-                if any(s in cfg.reachable([m]) for m in tgt_running):
-                    ok = False
-                    wit = cfg.path(tgt_running[0], [s])
-        run.check(ok, "C10.SINGLE", st.qual, "is_running guard",
+                  node=n.ast, file=st.file, path=fl.fmt(wit))
+        # guard: while is_running is true no path from the entry reaches the spawn
+        wit = _not_running_guard(fl, [s])
+        run.check(wit is None, "C10.SINGLE", fl.qual, "is_running guard",
                   "start() can spawn a second _run_loop while the actor is running (guard "
                   "`if self.is_running: return` missing or bypassable)", node=n.ast, file=st.file,
-                  path=_fmt(cfg, wit), instance=f"{st.qual}: spawn dominated by `not is_running`")
+                  path=fl.fmt(wit), instance=f"{fl.qual}: spawn dominated by `not is_running`")
     # is_running: any(not task.done() for task in self._tasks)
-    ir = prog.func(f"{BGS}.is_running")
-    run.analysed(ir.qual)
-    rets = [n for n in body_walk(ir.node) if isinstance(n, ast.Return) and n.value is not None]
-    ok = False
-    if len(rets) == 1:
-        v = rets[0].value
-        if isinstance(v, ast.Call) and u(v.func) == "any" and v.args \
-                and isinstance(v.args[0], ast.GeneratorExp):
-            ge = v.args[0]
-            gen = ge.generators[0]
-            ok = (len(ge.generators) == 1 and not gen.ifs and u(gen.iter) == "self._tasks"
-                  and canon(ge.elt) == ("not", ("truthy", f"{u(gen.target)}.done()")))
-    run.check(ok, "C10.SINGLE", ir.qual, rets[0] if rets else "return",
+    ifl = Flow(prog, prog.func(f"{BGS}.is_running"))
+    run.analysed(ifl.qual)
+    run.check(_is_any_not_done(ifl), "C10.SINGLE", ifl.qual, "return any(not task.done() ...)",
               "is_running is not `any(not task.done() for task in self._tasks)` — start() "
-              "idempotence relies on it", node=ir.node, file=ir.file)
+              "idempotence relies on it", node=ifl.fn.node, file=ifl.file)
 
 
 # ---------------------------------------------------------------------------------------------
+def _second_of_pair(fl: Flow, nid: int, call: ast.Call, index: int) -> str | None:
+    """Name that receives element `index` of the pair returned by `call` in statement `nid`:
+    `a, b = [await] call(...)` or `x = ([await] call(...))[index]`."""
+    s = fl.cfg.nodes[nid].ast
+    if not isinstance(s, ast.Assign) or len(s.targets) != 1:
+        return None
+    v = s.value
+    tgt = s.targets[0]
+    inner = v.value if isinstance(v, ast.Await) else v
+    if inner is call and isinstance(tgt, (ast.Tuple, ast.List)) and len(tgt.elts) == 2:
+        return u(tgt.elts[index])
+    if isinstance(v, ast.Subscript) and isinstance(v.slice, ast.Constant) and v.slice.value == index:
+        inner = v.value.value if isinstance(v.value, ast.Await) else v.value
+        if inner is call:
+            return u(tgt)
+    return None
+
+
 def check_stop(run: Run, prog: Program) -> None:
     # cancel(): every task is cancelled
-    cn = prog.func(f"{BGS}.cancel")
-    run.analysed(cn.qual)
-    cfg = _cfg(cn)
-    loops = [n for n in cfg.nodes if n.kind == "for" and u(n.ast.iter) == "self._tasks"]  # type: ignore[union-attr]
+    fl = Flow(prog, prog.func(f"{BGS}.cancel"))
+    cn, cfg = fl.fn, fl.cfg
+    run.analysed(fl.qual)
+    loops = [n for n in cfg.nodes if n.kind == "for" and isinstance(n.ast, ast.For)
+             and u(strip_wrappers(fl.expand(n.id, n.ast.iter))) == TASKS]
     ok = False
     wit = None
-    if len(loops) == 1:
-        h = loops[0]
+    for h in loops:
         cancels = nodes_with_call(cfg, lambda c: method_call(c, u(h.ast.target), "cancel"))  # type: ignore[union-attr]
         body_first = [m for m, lab in cfg.succ[h.id] if lab == "iter"]
         # every iteration passes a cancel node before returning to the header / leaving
         wit = cfg.path(body_first[0], [h.id, cfg.exit], avoid=cancels) if body_first else None
         if body_first and body_first[0] in cancels:
             wit = None
-        ok = bool(cancels) and wit is None
+        ok = bool(cancels) and bool(body_first) and wit is None and not loop_leaks(h.ast)
         # the loop is reached on every path from entry
         if ok and cfg.path(cfg.entry, [cfg.exit], avoid=[h.id]) is not None:
             ok = False
             wit = cfg.path(cfg.entry, [cfg.exit], avoid=[h.id])
-    run.check(ok, "C10.STOP", cn.qual, "for task in self._tasks: task.cancel(msg)",
+        if ok:
+            break
+    run.check(ok, "C10.STOP", fl.qual, "for task in self._tasks: task.cancel(msg)",
               "cancel() does not cancel every task in self._tasks on every path",
-              node=cn.node, file=cn.file, path=_fmt(cfg, wit))
+              node=cn.node, file=cn.file, path=fl.fmt(wit))
 
     # stop(): cancel precedes wait; only the non-cancellation remainder is re-raised
-    st = prog.func(f"{BGS}.stop")
-    run.analysed(st.qual)
-    cfg = _cfg(st)
-    waits = [x for x in nodes_with_call(cfg, lambda c: method_call(c, "self", "wait"))
-             if cfg.is_await(x)]
+    fl = Flow(prog, prog.func(f"{BGS}.stop"))
+    st, cfg = fl.fn, fl.cfg
+    run.analysed(fl.qual)
+    waits = [i for i, c in fl.calls(lambda c: method_call(c, "self", "wait")) if fl.awaited(i, c)]
     cancels = nodes_with_call(cfg, lambda c: method_call(c, "self", "cancel"))
     ok = bool(waits) and bool(cancels)
     wit = None
     if ok:
         wit = cfg.path(cfg.entry, waits, avoid=cancels)
         ok = wit is None
-    run.check(ok, "C10.STOP", st.qual, "self.cancel(msg) before await self.wait()",
+    run.check(ok, "C10.STOP", fl.qual, "self.cancel(msg) before await self.wait()",
               "stop() can wait for the tasks without having cancelled them first",
-              node=st.node, file=st.file, path=_fmt(cfg, wit))
+              node=st.node, file=st.file, path=fl.fmt(wit))
     # early exits before wait() only when there are no tasks
     if waits:
-        wit = cfg.path(cfg.entry, [cfg.exit], avoid=waits)
-        ok = True
-        if wit is not None:
-            # the path must go through a test `not self._tasks` on its true side
-            ok = False
-            for (nid, _lab), (nxt, lab2) in zip(wit, wit[1:]):
-                n = cfg.nodes[nid]
-                if n.kind == "test" and n.ast is not None:
-                    c = canon(n.ast)
-                    if (c == ("not", ("truthy", "self._tasks")) and lab2 == "true") or (
-                            c == ("truthy", "self._tasks") and lab2 == "false"):
-                        ok = True
-        run.check(ok, "C10.STOP", st.qual, "return without waiting",
+        wit = cfg.path(cfg.entry, [cfg.exit], avoid=waits, edge_ok=fl.consistent(nonempty(TASKS, True)))
+        run.check(wit is None, "C10.STOP", fl.qual, "return without waiting",
                   "stop() can return without awaiting wait() although tasks exist",
-                  node=st.node, file=st.file, path=_fmt(cfg, wit),
-                  instance=f"{st.qual}: returns early only when self._tasks is empty")
+                  node=st.node, file=st.file, path=fl.fmt(wit),
+                  instance=f"{fl.qual}: returns early only when self._tasks is empty")
     # exception group filtering
-    handlers = [n for n in cfg.nodes if n.kind == "handler"]
-    grp = [h for h in handlers if "BaseExceptionGroup" in h.label]
     ok = False
     detail = "no `except BaseExceptionGroup` handler around await self.wait()"
+    grp = []
+    for w in waits:
+        for m, lab in cfg.succ[w]:
+            hn = cfg.nodes[m]
+            if lab.startswith("exc:") and hn.kind == "handler" and hn not in grp \
+                    and isinstance(hn.ast, ast.ExceptHandler) and hn.ast.type is not None \
+                    and any((dotted(x) or "").split(".")[-1] == "BaseExceptionGroup"
+                            for x in ([hn.ast.type] if not isinstance(hn.ast.type, ast.Tuple)
+                                      else hn.ast.type.elts)):
+                grp.append(hn)
     if len(grp) == 1 and waits:
         h = grp[0]
         assert isinstance(h.ast, ast.ExceptHandler)
         exc_name = h.ast.name
         hreach = cfg.reachable([h.id])
-        splits = [x for x in hreach if cfg.nodes[x].kind == "stmt" and node_has_call(
-            cfg, x, lambda c: method_call(c, exc_name, "split")
-            and [u(a).split(".")[-1] for a in c.args] == ["CancelledError"])]
+        splits = [(i, c) for i, c in fl.calls(
+            lambda c: method_call(c, exc_name, "split")
+            and [u(a).split(".")[-1] for a in c.args] == ["CancelledError"] and not c.keywords)
+            if i in hreach]
         detail = "the handler does not split off asyncio.CancelledError"
         if len(splits) == 1:
-            sp = cfg.nodes[splits[0]].ast
-            rest_name = None
-            if isinstance(sp, ast.Assign) and isinstance(sp.targets[0], ast.Tuple) \
-                    and len(sp.targets[0].elts) == 2:
-                rest_name = u(sp.targets[0].elts[1])
+            sp, sp_call = splits[0]
+            rest_name = _second_of_pair(fl, sp, sp_call, 1)
+            fl.pin(rest_name)
             raises = [x for x in hreach if isinstance(cfg.nodes[x].ast, ast.Raise)]
             detail = "the non-cancellation remainder of the group is not re-raised"
             if rest_name and raises:
-                good_raise = all(u(cfg.nodes[x].ast.exc) == rest_name for x in raises)  # type: ignore[union-attr]
-                # raise is reached exactly when rest is not None
-                tests = [x for x in hreach if cfg.nodes[x].kind == "test" and cfg.nodes[x].ast is not None
-                         and canon(cfg.nodes[x].ast) in (
-                             ("isnot", frozenset({rest_name, "None"})),
-                             ("is", frozenset({rest_name, "None"})),
-                             ("truthy", rest_name))]
-                if good_raise and len(tests) == 1:
-                    tn = cfg.nodes[tests[0]]
-                    c = canon(tn.ast)  # type: ignore[arg-type]
-                    some_label = "false" if c[0] == "is" else "true"
-                    none_label = "true" if c[0] == "is" else "false"
-                    some_side = cfg.reachable([m for m, lab in cfg.succ[tn.id] if lab == some_label])
-                    none_side = cfg.reachable([m for m, lab in cfg.succ[tn.id] if lab == none_label])
-                    ok = (cfg.exit not in some_side and any(r in some_side for r in raises)
-                          and not any(r in none_side for r in raises) and cfg.exit in none_side)
+                good_raise = all(fl.text(x, cfg.nodes[x].ast.exc) == rest_name for x in raises)  # type: ignore[union-attr]
+                rebound = [x for x in hreach if x != sp
+                           and any(u(w) == rest_name for w in node_writes(cfg, x))]
+                if good_raise and not rebound:
+                    after = [m for m, lab in cfg.succ[sp] if normal_edge(sp, m, lab)]
+                    # an exception group is always truthy: `if rest:` == `if rest is not None:`
+                    some_v = join(is_none(rest_name, False), truthy(rest_name, True))
+                    none_v = join(is_none(rest_name, True), truthy(rest_name, False))
+                    e_some = fl.consistent(some_v, normal=True)
+                    e_none = fl.consistent(none_v, normal=True)
+                    swallowed = [cfg.path(a, [cfg.exit], avoid=raises, edge_ok=e_some) for a in after]
+                    surfaced = [cfg.path(a, raises, edge_ok=e_none) for a in after]
+                    some_side = cfg.reachable(after, edge_ok=e_some)
+                    none_side = cfg.reachable(after, edge_ok=e_none)
+                    ok = (bool(after) and not any(swallowed) and not any(surfaced)
+                          and any(r in some_side for r in raises) and cfg.exit in none_side)
                     detail = ("the remainder is not raised exactly when it is not None "
                               "(errors swallowed or cancellations surfaced)")
                 elif not good_raise:
                     detail = "stop() re-raises something other than the non-cancellation remainder"
-    run.check(ok, "C10.STOP", st.qual, "except BaseExceptionGroup: split(CancelledError); raise rest",
+    run.check(ok, "C10.STOP", fl.qual, "except BaseExceptionGroup: split(CancelledError); raise rest",
               detail, node=st.node, file=st.file)
 
     # wait()
-    wt = prog.func(f"{BGS}.wait")
-    run.analysed(wt.qual)
-    cfg = _cfg(wt)
-    loops = [n for n in cfg.nodes if n.kind == "while"]
-    ok = len(loops) == 1 and canon(loops[0].ast.test) == ("truthy", "self._tasks")  # type: ignore[union-attr]
-    run.check(ok, "C10.STOP", wt.qual, "while self._tasks",
-              "wait() does not loop until self._tasks is empty", node=wt.node, file=wt.file)
+    fl = Flow(prog, prog.func(f"{BGS}.wait"))
+    wt, cfg = fl.fn, fl.cfg
+    run.analysed(fl.qual)
+    # state changes of the task set: re-binding, mutation, or any suspension point
+    def touches_tasks(nid: int) -> bool:
+        n = cfg.nodes[nid]
+        if n.ast is None:
+            return False
+        if any(u(w) == TASKS for w in node_writes(cfg, nid)) or cfg.is_await(nid):
+            return True
+        return any(isinstance(c.func, ast.Attribute) and u(c.func.value) == TASKS for c in own_calls(n))
+
+    changers = [n.id for n in cfg.nodes if touches_tasks(n.id)]
+    e_tasks = fl.consistent(nonempty(TASKS, True), normal=True)
+    wit = cfg.path(cfg.entry, [cfg.exit], edge_ok=e_tasks)
+    for c in changers:
+        if wit is None:
+            wit = cfg.path(c, [cfg.exit], edge_ok=e_tasks, include_src=False)
+    loops_back = any(c in cfg.reachable([c], include_src=False) for c in changers)
+    ok = wit is None and loops_back
+    run.check(ok, "C10.STOP", fl.qual, "while self._tasks",
+              "wait() does not loop until self._tasks is empty: it can return although the set "
+              "was (still) non-empty when last examined", node=wt.node, file=wt.file,
+              path=fl.fmt(wit))
     if ok:
-        h = loops[0]
-        # normal exit only through the loop test being false
-        preds = cfg.pred[cfg.exit]
-        only = all(a == h.id and lab == "false" for a, lab in preds)
-        wit = None
-        if not only:
-            other = [a for a, lab in preds if not (a == h.id and lab == "false")]
-            wit = cfg.path(cfg.entry, other)
-        run.check(only, "C10.STOP", wt.qual, "return only when no task is left",
-                  "wait() can return while tasks remain (exit not through `while self._tasks`)",
-                  node=wt.node, file=wt.file, path=_fmt(cfg, wit))
+        run.ok("C10.STOP", f"{fl.qual}: return only when no task is left")
         # the awaited set is self._tasks and only done tasks are removed
-        aw = [x for x in nodes_with_call(cfg, lambda c: dotted(c.func) == "asyncio.wait")
-              if cfg.is_await(x)]
+        aws = [(i, c) for i, c in fl.calls(lambda c: dotted(c.func) == "asyncio.wait") if fl.awaited(i, c)]
         done_name = None
-        good_wait = False
-        for x in aw:
-            s = cfg.nodes[x].ast
-            if isinstance(s, ast.Assign) and isinstance(s.targets[0], ast.Tuple) \
-                    and isinstance(s.value, ast.Await) and isinstance(s.value.value, ast.Call):
-                call = s.value.value
-                if [u(a) for a in call.args] == ["self._tasks"] and not [
-                        k for k in call.keywords if k.arg == "return_when"
-                        and "ALL_COMPLETED" not in u(k.value)] and not [
-                            k for k in call.keywords if k.arg == "timeout"]:
-                    done_name = u(s.targets[0].elts[0])
-                    good_wait = True
-        run.check(good_wait, "C10.STOP", wt.qual, "await asyncio.wait(self._tasks)",
+        good_wait = bool(aws)
+        for i, c in aws:
+            args = positional(c, ["fs"])
+            extra = set(args) - {"fs", "timeout", "return_when"}
+            fs = args.get("fs")
+            timeout = args.get("timeout")
+            rw = args.get("return_when")
+            good = (fs is not None and len(c.args) <= 1 and not extra
+                    and u(strip_wrappers(fl.expand(i, fs))) == TASKS
+                    and (timeout is None or (isinstance(timeout, ast.Constant) and timeout.value is None))
+                    and (rw is None or fl.text(i, rw).split(".")[-1] == "ALL_COMPLETED"))
+            name = _second_of_pair(fl, i, c, 0)
+            if not good or name is None or (done_name is not None and name != done_name):
+                good_wait = False
+            done_name = name
+        fl.pin(done_name)
+        # between two examinations of the task set its tasks are really awaited
+        probes = [t for t in fl.tests() if fl.decides(t, nonempty(TASKS, True))]
+        aw_ids = [i for i, _ in aws]
+        for t in probes:
+            for m, lab in cfg.succ[t]:
+                if e_tasks(t, m, lab) and m not in aw_ids and cfg.path(
+                        m, probes, avoid=aw_ids, edge_ok=e_tasks) is not None:
+                    good_wait = False
+        run.check(good_wait, "C10.STOP", fl.qual, "await asyncio.wait(self._tasks)",
                   "wait() does not await completion of all of self._tasks", node=wt.node,
                   file=wt.file)
         if good_wait and done_name:
-            writes = [n.ast for n in cfg.nodes if n.ast is not None and any(
-                u(w) == "self._tasks" for w in node_writes(cfg, n.id))]
-            ok_w = bool(writes) and all(
-                isinstance(s, ast.Assign) and u(s.value) in (
-                    f"self._tasks - {done_name}", f"self._tasks.difference({done_name})")
-                or (isinstance(s, ast.AugAssign) and isinstance(s.op, ast.Sub)
-                    and u(s.value) == done_name)
-                for s in writes)
+            aw_nodes = [i for i, _ in aws]
+            writes = [n.id for n in cfg.nodes if n.ast is not None and any(
+                u(w) == TASKS for w in node_writes(cfg, n.id))]
+
+            def removes_done(nid: int) -> bool:
+                s = cfg.nodes[nid].ast
+                if isinstance(s, ast.AugAssign):
+                    return isinstance(s.op, ast.Sub) and fl.text(nid, s.value) == done_name
+                if isinstance(s, (ast.Assign, ast.AnnAssign)) and s.value is not None:
+                    v = fl.expand(nid, s.value)
+                    if isinstance(v, ast.BinOp) and isinstance(v.op, ast.Sub):
+                        return u(v.left) == TASKS and u(v.right) == done_name
+                    if isinstance(v, ast.Call) and method_call(v, TASKS, "difference"):
+                        return [u(a) for a in v.args] == [done_name] and not v.keywords
+                    if isinstance(v, ast.SetComp) and len(v.generators) == 1:
+                        g = v.generators[0]
+                        return (u(g.iter) == TASKS and u(v.elt) == u(g.target) and len(g.ifs) == 1
+                                and canon(g.ifs[0]) == ("notin", u(g.target), done_name))
+                return False
+
+            ok_w = bool(writes) and all(removes_done(x) for x in writes)
             mut = find_calls(wt.node, lambda c: isinstance(c.func, ast.Attribute)
-                             and u(c.func.value) == "self._tasks"
-                             and c.func.attr in ("clear", "pop", "remove", "discard",
-                                                 "difference_update", "intersection_update"))
+                             and u(c.func.value) == TASKS
+                             and c.func.attr in ("clear", "pop", "remove", "discard", "add", "update",
+                                                 "difference_update", "intersection_update",
+                                                 "symmetric_difference_update"))
             ok_m = all(c.func.attr == "difference_update" and [u(a) for a in c.args] == [done_name]  # type: ignore[union-attr]
                        for c in mut)
-            run.check((ok_w or (not writes and mut)) and ok_m, "C10.STOP", wt.qual,
+            run.check((ok_w or (not writes and mut)) and ok_m, "C10.STOP", fl.qual,
                       "self._tasks = self._tasks - done",
                       "wait() removes tasks other than the finished ones from self._tasks",
                       node=wt.node, file=wt.file)
             # every done task's result is collected under a handler that catches everything
-            fors = [n for n in cfg.nodes if n.kind == "for" and u(n.ast.iter) == done_name]  # type: ignore[union-attr]
+            fors = [n for n in cfg.nodes if n.kind == "for" and isinstance(n.ast, ast.For)
+                    and u(strip_wrappers(fl.expand(n.id, n.ast.iter))) == done_name]
             ok_r = False
             wit = None
             detail = "no loop over the finished tasks"
+            collectors: set[str] = set()
             if len(fors) == 1:
                 f = fors[0]
                 tv = u(f.ast.target)  # type: ignore[union-attr]
                 res = nodes_with_call(cfg, lambda c: method_call(c, tv, "result"))
                 detail = "task.result() is not read for every finished task"
                 first = [m for m, lab in cfg.succ[f.id] if lab == "iter"]
-                if res and first:
+                if loop_leaks(f.ast):
+                    detail = "the loop over the finished tasks can end before every task was examined"
+                elif res and first:
                     wit = None if first[0] in res else cfg.path(first[0], [f.id, cfg.exit], avoid=res)
                     if wit is None:
                         ok_r = True
@@ -557,44 +685,57 @@ def check_stop(run: Run, prog: Program) -> None:
                                 if lab.startswith("exc:") and cfg.nodes[m].kind == "handler":
                                     hn = cfg.nodes[m]
                                     name = hn.ast.name  # type: ignore[union-attr]
-                                    hreach = cfg.reachable([m], avoid=[f.id])
-                                    app = [y for y in hreach if cfg.nodes[y].kind == "stmt"
-                                           and node_has_call(cfg, y, lambda c: isinstance(
-                                               c.func, ast.Attribute) and c.func.attr == "append"
-                                               and [u(a) for a in c.args] == [name])]
-                                    if not app:
+                                    # every way from the handler back to the loop appends the error
+                                    app = [i for i, c in fl.calls(
+                                        lambda c: isinstance(c.func, ast.Attribute)
+                                        and c.func.attr == "append"
+                                        and [u(a) for a in c.args] == [name] and not c.keywords)]
+                                    hw = cfg.path(m, [f.id, cfg.exit], avoid=app, edge_ok=normal_edge)
+                                    if name is None or not app or hw is not None:
                                         ok_r = False
+                                        wit = hw
                                         detail = "a task error is caught but not collected"
-            run.check(ok_r, "C10.STOP", wt.qual, "collect task.result() of every finished task",
-                      detail, node=wt.node, file=wt.file, path=_fmt(cfg, wit))
+                                    for i, c in fl.calls(lambda c: callee_tail(c) == "append"):
+                                        if i in app:
+                                            collectors.add(u(c.func.value))  # type: ignore[attr-defined]
+            run.check(ok_r, "C10.STOP", fl.qual, "collect task.result() of every finished task",
+                      detail, node=wt.node, file=wt.file, path=fl.fmt(wit))
             # raise group iff any error
-            raises = [n for n in cfg.nodes if isinstance(n.ast, ast.Raise)
-                      and "BaseExceptionGroup" in u(n.ast.exc)]
+            raises = []
+            lst = None
+            for n in cfg.nodes:
+                if isinstance(n.ast, ast.Raise) and n.ast.exc is not None:
+                    exc = fl.expand(n.id, n.ast.exc)
+                    if isinstance(exc, ast.Call) and callee_tail(exc) == "BaseExceptionGroup":
+                        raises.append(n.id)
+                        lst = u(exc.args[1]) if len(exc.args) == 2 and not exc.keywords else None
             ok_g = False
-            if len(raises) == 1:
-                rn = raises[0]
-                lst = u(rn.ast.exc.args[1]) if isinstance(rn.ast.exc, ast.Call) and len(rn.ast.exc.args) > 1 else None  # type: ignore[union-attr]
-                tests = [n for n in cfg.nodes if n.kind == "test" and n.ast is not None
-                         and canon(n.ast) == ("truthy", lst)]
-                if lst and len(tests) == 1:
-                    t = tests[0]
-                    t_true = [m for m, lab in cfg.succ[t.id] if lab == "true"]
-                    ok_g = t_true == [rn.id] and all(
-                        a == t.id for a, _ in cfg.pred[rn.id])
-            run.check(ok_g, "C10.STOP", wt.qual, "raise BaseExceptionGroup iff errors were collected",
+            wit = None
+            fl.pin(lst)
+            if len(raises) == 1 and lst and len(fors) == 1 and collectors == {lst}:
+                after = [m for m, lab in cfg.succ[fors[0].id] if lab == "done"]
+                e_some = fl.consistent(nonempty(lst, True), normal=True)
+                e_none = fl.consistent(nonempty(lst, False), normal=True)
+                for a in after:
+                    # errors collected: the group is raised before returning / waiting again
+                    wit = wit or cfg.path(a, [cfg.exit] + aw_nodes, avoid=raises, edge_ok=e_some)
+                    # none collected: nothing is raised
+                    wit = wit or cfg.path(a, raises, avoid=aw_nodes, edge_ok=e_none)
+                ok_g = bool(after) and wit is None and any(
+                    raises[0] in cfg.reachable([a], edge_ok=e_some) for a in after)
+            run.check(ok_g, "C10.STOP", fl.qual, "raise BaseExceptionGroup iff errors were collected",
                       "wait() does not surface the collected task errors exactly when there are any",
-                      node=wt.node, file=wt.file)
+                      node=wt.node, file=wt.file, path=fl.fmt(wit))
 
     # __aexit__ stops, __await__ waits
-    ax = prog.func(f"{BGS}.__aexit__")
-    run.analysed(ax.qual)
-    cfg = _cfg(ax)
-    stops = [x for x in nodes_with_call(cfg, lambda c: method_call(c, "self", "stop"))
-             if cfg.is_await(x)]
+    fl = Flow(prog, prog.func(f"{BGS}.__aexit__"))
+    ax, cfg = fl.fn, fl.cfg
+    run.analysed(fl.qual)
+    stops = [i for i, c in fl.calls(lambda c: method_call(c, "self", "stop")) if fl.awaited(i, c)]
     wit = cfg.path(cfg.entry, [cfg.exit], avoid=stops)
-    run.check(bool(stops) and wit is None, "C10.STOP", ax.qual, "await self.stop()",
+    run.check(bool(stops) and wit is None, "C10.STOP", fl.qual, "await self.stop()",
               "leaving the async context does not stop the service on every path",
-              node=ax.node, file=ax.file, path=_fmt(cfg, wit))
+              node=ax.node, file=ax.file, path=fl.fmt(wit))
 
 
 # ---------------------------------------------------------------------------------------------
@@ -608,48 +749,34 @@ def check_subclasses(run: Run, prog: Program) -> None:
         for name in ("stop", "cancel", "wait"):
             if name not in sub.methods:
                 continue
-            m = sub.methods[name]
-            run.analysed(m.qual)
-            cfg = _cfg(m)
-            sup = nodes_with_call(cfg, lambda c, n=name: is_super_call(c, n))
-            if m.is_async:
-                sup = [x for x in sup if cfg.is_await(x)]
-            wit = cfg.path(cfg.entry, [cfg.exit], avoid=sup)
-            run.check(bool(sup) and wit is None, "C10.SUPER", m.qual, f"super().{name}()",
+            fl = Flow(prog, sub.methods[name])
+            m, cfg = fl.fn, fl.cfg
+            run.analysed(fl.qual)
+            sup = fl.calls(lambda c, n=name: is_super_call(c, n))
+            sup_nodes = [i for i, c in sup if not m.is_async or fl.awaited(i, c)]
+            wit = cfg.path(cfg.entry, [cfg.exit], avoid=sup_nodes)
+            run.check(bool(sup_nodes) and wit is None, "C10.SUPER", fl.qual, f"super().{name}()",
                       f"override of {name}() has a normal path that skips the base implementation "
                       "(tasks of the service are not cancelled/awaited)", node=m.node, file=m.file,
-                      path=_fmt(cfg, wit))
+                      path=fl.fmt(wit))
         if "start" in sub.methods:
-            m = sub.methods["start"]
-            run.analysed(m.qual)
-            for call in find_calls(m.node, lambda c: (dotted(c.func) or "").endswith("create_task")):
+            fl = Flow(prog, sub.methods["start"])
+            run.analysed(fl.qual)
+            for nid, call in fl.calls(lambda c: callee_tail(c) == "create_task"):
                 # the created task must flow into self._tasks
-                registered = False
-                for node in body_walk(m.node):
-                    if isinstance(node, ast.Call) and method_call(node, "self._tasks", "add") \
-                            and any(call is x for a in node.args for x in ast.walk(a)):
-                        registered = True
-                if not registered:
-                    # via a local name
-                    for node in body_walk(m.node):
-                        if isinstance(node, ast.Assign) and node.value is call:
-                            nm = u(node.targets[0])
-                            for n2 in body_walk(m.node):
-                                if isinstance(n2, ast.Call) and method_call(n2, "self._tasks", "add") \
-                                        and [u(a) for a in n2.args] == [nm]:
-                                    registered = True
-                run.check(registered, "C10.SUPER", m.qual, call,
+                ok_reg, wit = registered(fl, nid, call, TASKS)
+                run.check(ok_reg, "C10.SUPER", fl.qual, call,
                           "a task created in start() is not added to self._tasks, so stop()/wait() "
-                          "neither cancel nor await it", node=call, file=m.file)
+                          "neither cancel nor await it", node=call, file=fl.file, path=fl.fmt(wit))
         # nobody rebinds or clears the task set outside the base class (except Actor.start's reset)
         for m in sub.methods.values():
             for node in body_walk(m.node):
                 bad = False
                 if isinstance(node, (ast.Assign, ast.AugAssign, ast.AnnAssign)) and any(
-                        u(w) == "self._tasks" for w in writes_of(node)):
+                        u(w) == TASKS for w in writes_of(node)):
                     bad = True
                 if isinstance(node, ast.Call) and isinstance(node.func, ast.Attribute) \
-                        and u(node.func.value) == "self._tasks" and node.func.attr in (
+                        and u(node.func.value) == TASKS and node.func.attr in (
                             "clear", "pop", "remove", "discard"):
                     bad = not (m.qual == f"{ACTOR}.start" and node.func.attr == "clear")
                     if not bad:
@@ -661,52 +788,105 @@ def check_subclasses(run: Run, prog: Program) -> None:
                                   "a subclass drops tasks from self._tasks: stop()/wait() would "
                                   "no longer cancel/await them", node=node, file=m.file)
     # Actor.start: the clear() is dominated by the is_running guard as well
-    st = prog.func(f"{ACTOR}.start")
-    cfg = _cfg(st)
-    clears = nodes_with_call(cfg, lambda c: method_call(c, "self._tasks", "clear"))
-    guards = [t.id for t in cfg.nodes if t.kind == "test" and t.ast is not None
-              and "is_running" in t.label]
+    fl = Flow(prog, prog.func(f"{ACTOR}.start"))
+    cfg = fl.cfg
+    clears = nodes_with_call(cfg, lambda c: method_call(c, TASKS, "clear"))
     for c in clears:
-        wit = cfg.path(cfg.entry, [c], avoid=guards)
-        run.check(bool(guards) and wit is None, "C10.SUPER", st.qual, cfg.nodes[c].ast,
+        wit = _not_running_guard(fl, [c])
+        run.check(wit is None, "C10.SUPER", fl.qual, cfg.nodes[c].ast,
                   "self._tasks.clear() reachable without the is_running guard: running tasks "
-                  "would be forgotten", node=cfg.nodes[c].ast, file=st.file, path=_fmt(cfg, wit))
+                  "would be forgotten", node=cfg.nodes[c].ast, file=fl.file, path=fl.fmt(wit))
 
 
 # ---------------------------------------------------------------------------------------------
+def _wait_task_of(elt: ast.AST, var: str) -> bool:
+    """`create_task(<var>.wait(), ...)`: exactly one task that awaits the actor."""
+    return (isinstance(elt, ast.Call) and callee_tail(elt) == "create_task" and bool(elt.args)
+            and isinstance(elt.args[0], ast.Call) and method_call(elt.args[0], var, "wait")
+            and not elt.args[0].args and not elt.args[0].keywords)
+
+
 def check_run_utils(run: Run, prog: Program) -> None:
-    fn = prog.func("actor._run_utils:run")
-    run.analysed(fn.qual)
-    cfg = _cfg(fn)
-    q = fn.qual
+    fl = Flow(prog, prog.func("actor._run_utils:run"))
+    fn, cfg, q = fl.fn, fl.cfg, fl.qual
+    run.analysed(q)
     param = fn.node.args.vararg.arg if fn.node.args.vararg else None
     if not param:
         raise AnalysisError(f"{q}: *actors parameter not found")
-    # one wait task per actor, no filter
+    # one wait task per actor, no filter, kept in a set/list (a keyed container could merge actors)
     ok = False
     pend = None
     for n in cfg.nodes:
         s = n.ast
-        if isinstance(s, ast.Assign) and isinstance(s.value, (ast.SetComp, ast.ListComp)):
-            comp = s.value
+        if n.kind != "stmt" or not isinstance(s, (ast.Assign, ast.AnnAssign)) or s.value is None:
+            continue
+        tgt = s.targets[0] if isinstance(s, ast.Assign) and len(s.targets) == 1 else getattr(s, "target", None)
+        if not isinstance(tgt, ast.Name):
+            continue
+        comp = fl.expand(n.id, s.value)
+        if isinstance(comp, ast.Call) and isinstance(comp.func, ast.Name) and comp.func.id in (
+                "set", "list") and len(comp.args) == 1 and not comp.keywords \
+                and isinstance(comp.args[0], (ast.GeneratorExp, ast.ListComp, ast.SetComp)):
+            comp = comp.args[0]
+            if isinstance(comp, ast.SetComp):
+                continue
+        elif isinstance(comp, ast.GeneratorExp):
+            continue
+        if isinstance(comp, (ast.SetComp, ast.ListComp, ast.GeneratorExp)) and len(comp.generators) == 1:
             gen = comp.generators[0]
-            if len(comp.generators) == 1 and u(gen.iter) == param and not gen.ifs \
-                    and has_call(comp.elt, lambda c: method_call(c, u(gen.target), "wait")) \
-                    and has_call(comp.elt, lambda c: (dotted(c.func) or "").endswith("create_task")):
+            if u(strip_wrappers(gen.iter)) == param and not gen.ifs and not gen.is_async \
+                    and isinstance(gen.target, ast.Name) and _wait_task_of(comp.elt, gen.target.id):
                 ok = True
-                pend = u(s.targets[0])
+                pend = tgt.id
+    if not ok:
+        # explicit loop: pending = set(); for a in actors: pending.add(create_task(a.wait()))
+        for h in cfg.nodes:
+            if h.kind != "for" or not isinstance(h.ast, ast.For) or not isinstance(h.ast.target, ast.Name) \
+                    or u(strip_wrappers(fl.expand(h.id, h.ast.iter))) != param:
+                continue
+            var = h.ast.target.id
+            adds = [(i, c) for i, c in fl.calls(
+                lambda c: isinstance(c.func, ast.Attribute) and c.func.attr in ("add", "append")
+                and isinstance(c.func.value, ast.Name) and len(c.args) == 1 and not c.keywords)
+                if _wait_task_of(fl.expand(i, c.args[0]), var)]
+            first = [m for m, lab in cfg.succ[h.id] if lab == "iter"]
+            names = {c.func.value.id for _, c in adds}  # type: ignore[attr-defined]
+            add_nodes = [i for i, _ in adds]
+            if len(names) == 1 and first and (first[0] in add_nodes or cfg.path(
+                    first[0], [h.id, cfg.exit], avoid=add_nodes, edge_ok=normal_edge) is None) \
+                    and cfg.path(cfg.entry, [cfg.exit], avoid=[h.id], edge_ok=normal_edge) is None:
+                name = names.pop()
+                inits = [x for x in cfg.reachable([cfg.entry], avoid=[h.id], edge_ok=normal_edge)
+                         if any(u(w) == name for w in node_writes(cfg, x))]
+                empty = all(u(getattr(cfg.nodes[x].ast, "value", None)) in ("set()", "[]", "list()")
+                            for x in inits)
+                if inits and empty:
+                    ok = True
+                    pend = name
     run.check(ok, "C10.RUN", q, "one wait() task per actor",
               "run() does not create a waiting task for every actor passed in", node=fn.node,
               file=fn.file)
     if not ok or pend is None:
         return
-    loops = [n for n in cfg.nodes if n.kind == "while" and canon(n.ast.test) == ("truthy", pend)]  # type: ignore[union-attr]
-    run.check(len(loops) == 1, "C10.RUN", q, f"while {pend}",
-              "run() does not loop until no waiting task is pending", node=fn.node, file=fn.file)
-    if len(loops) != 1:
+    fl.pin(pend)
+    # the wait loop: left only when the pending set is empty
+    aws = [(i, c) for i, c in fl.calls(lambda c: dotted(c.func) == "asyncio.wait") if fl.awaited(i, c)]
+    aw_nodes = [i for i, _ in aws]
+    changers = [n.id for n in cfg.nodes if n.ast is not None and (
+        any(u(w) == pend for w in node_writes(cfg, n.id)) or any(
+            isinstance(c.func, ast.Attribute) and u(c.func.value) == pend for c in own_calls(n)))]
+    e_pending = fl.consistent(nonempty(pend, True), normal=True)
+    wit = None
+    for c in changers:
+        wit = wit or cfg.path(c, [cfg.exit], edge_ok=e_pending, include_src=False)
+    loops = [n for n in cfg.nodes if n.kind == "while" and any(a in cfg.reachable(
+        [m for m, lab in cfg.succ[n.id] if lab == "true"], avoid=[n.id]) for a in aw_nodes)]
+    run.check(len(loops) == 1 and bool(changers) and wit is None, "C10.RUN", q, f"while {pend}",
+              "run() does not loop until no waiting task is pending", node=fn.node, file=fn.file,
+              path=fl.fmt(wit))
+    if len(loops) != 1 or wit is not None:
         return
     h = loops[0]
-    preds = cfg.pred[cfg.exit]
     body = cfg.reachable([m for m, lab in cfg.succ[h.id] if lab == "true"], avoid=[h.id])
     leaving = [(a, lab) for a in body for m, lab in cfg.succ[a]
                if m not in body and m != h.id and not lab.startswith("exc:")]
@@ -715,47 +895,43 @@ def check_run_utils(run: Run, prog: Program) -> None:
               node=fn.node, file=fn.file,
               path=[f"{fn.file}:{cfg.nodes[a].lineno} {cfg.nodes[a].text()}" for a, _ in leaving])
     # pending is re-assigned from asyncio.wait(pending, ...)[1] and nowhere else in the loop
-    writes = [cfg.nodes[x].ast for x in body if cfg.nodes[x].ast is not None and any(
+    writes = [x for x in body if cfg.nodes[x].ast is not None and any(
         u(w) == pend for w in node_writes(cfg, x))]
-    ok = len(writes) == 1
+    mutated = [x for x in body if any(isinstance(c.func, ast.Attribute) and u(c.func.value) == pend
+                                      for c in own_calls(cfg.nodes[x]))]
+    ok = len(writes) == 1 and not mutated
     if ok:
-        s = writes[0]
-        ok = (isinstance(s, ast.Assign) and isinstance(s.targets[0], ast.Tuple)
-              and len(s.targets[0].elts) == 2 and u(s.targets[0].elts[1]) == pend
-              and isinstance(s.value, ast.Await) and isinstance(s.value.value, ast.Call)
-              and dotted(s.value.value.func) == "asyncio.wait"
-              and [u(a) for a in s.value.value.args][:1] == [pend])
+        x = writes[0]
+        calls = [c for i, c in aws if i == x]
+        ok = (len(calls) == 1 and _second_of_pair(fl, x, calls[0], 1) == pend
+              and len(calls[0].args) <= 1
+              and u(strip_wrappers(fl.expand(x, positional(calls[0], ["fs"]).get("fs", ast.Constant(None))))) == pend)
     run.check(ok, "C10.RUN", q, f"_, {pend} = await asyncio.wait({pend}, ...)",
               "the pending set is not exactly what asyncio.wait reports as still pending",
               node=fn.node, file=fn.file)
     # actors that are not running get started
-    starts = nodes_with_call(cfg, lambda c: isinstance(c.func, ast.Attribute)
-                             and c.func.attr == "start")
-    fors = [n for n in cfg.nodes if n.kind == "for" and u(n.ast.iter) == param]  # type: ignore[union-attr]
+    fors = [n for n in cfg.nodes if n.kind == "for" and isinstance(n.ast, ast.For)
+            and u(strip_wrappers(fl.expand(n.id, n.ast.iter))) == param]
     ok = False
     wit = None
-    if fors and starts:
-        f = fors[0]
+    for f in fors:
+        tv = u(f.ast.target)  # type: ignore[union-attr]
+        starts = nodes_with_call(cfg, lambda c: method_call(c, tv, "start"))
         first = [m for m, lab in cfg.succ[f.id] if lab == "iter"]
-        # a path through the body that neither starts the actor nor saw is_running true
-        running_tests = [n.id for n in cfg.nodes if n.kind == "test" and "is_running" in n.label]
-        ok = True
-        for t in running_tests:
-            tn = cfg.nodes[t]
-            c = canon(tn.ast)  # type: ignore[arg-type]
-            not_running = "false" if c[0] == "truthy" else "true"
-            side = [m for m, lab in cfg.succ[t] if lab == not_running]
-            wit = cfg.path(side[0], [f.id], avoid=starts) if side else None
-            if side and side[0] in starts:
-                wit = None
-            if wit is not None:
-                ok = False
-        if not running_tests:
-            wit = cfg.path(first[0], [f.id], avoid=starts) if first and first[0] not in starts else None
-            ok = wit is None
+        if not starts or not first or loop_leaks(f.ast):
+            continue
+        # an actor that is not running: every way through the body passes its start()
+        e_stopped = fl.consistent(truthy(f"{tv}.is_running", False), normal=True)
+        wit = None if first[0] in starts else cfg.path(
+            first[0], [f.id, cfg.exit], avoid=starts, edge_ok=e_stopped)
+        reached = cfg.path(cfg.entry, [cfg.exit], avoid=[f.id], edge_ok=normal_edge) is None
+        before_wait = cfg.path(cfg.entry, aw_nodes, avoid=[f.id], edge_ok=normal_edge) is None
+        if wit is None and reached and before_wait:
+            ok = True
+            break
     run.check(ok, "C10.RUN", q, "start every actor that is not running",
               "run() can skip starting an actor that is not running", node=fn.node, file=fn.file,
-              path=_fmt(cfg, wit))
+              path=fl.fmt(wit))
 
 
 # ---------------------------------------------------------------------------------------------
@@ -811,7 +987,7 @@ def check(run: Run, prog: Program, tier: str) -> str:
     run.assume("asyncio semantics: CancelledError is a BaseException and surfaces only at await "
                "points and Task.result()/exception()")
     run.undecided("real timing of the restart delay; fairness of the event loop")
-    run.sample({"cfg": "Actor._run_loop", "nodes": len(_cfg(prog.func(f'{ACTOR}._run_loop')).nodes)})
+    run.sample({"cfg": "Actor._run_loop", "nodes": len(Flow(prog, prog.func(f'{ACTOR}._run_loop')).cfg.nodes)})
     return ("Path rules over the exception-aware CFGs of Actor._run_loop/start, BackgroundService."
             "cancel/stop/wait/__aexit__, run() and every BackgroundService subclass override: "
             "decides the restart policy (which exception kinds loop back, guard, counter, delay), "
